@@ -1559,4 +1559,28 @@ example : ∃ w, run2 tabK { A := { compact := true } } (rollbackOps.filter (fun
   deliveries to an agent that is ahead of the aggregator. Not attempted inside the last 45-minute box.
 -/
 
+/-- C20 (two hops, compact aggregator WITH roll-backs, under `NoReturn`) — PARTIAL. The full statement
+    `two_hop_converges_compact_no_return` stays in the comment above. Proved here: the two steps of the run-compressed
+    invariant that distinguish it from the skip-free chain, for one stored entry `a` of a compact journal read as a run of
+    source versions with identical stored form (`Covers`): (1) a restart only shortens the run (`covers_shrink`);
+    (2) the skip of a later source version `he` with the same stored form — after a restart or not, with unseen versions
+    in between or not — extends the run to `he.ver` (`covers_skip`), which needs `NoReturn`; hence (3) every source
+    version of the entity between the entry's version and `he.ver` has the stored form the journal holds, so an agent that
+    received any of them from the pre-restart aggregator holds that same form. Missing for the full theorem: lifting
+    `Covers` to a journal / chain invariant through `applyUpdate` and deliveries to an agent ahead of the aggregator. -/
+theorem two_hop_converges_compact_no_return_partial (tab : Nat → Content) (c : Bool) (H : List Entry)
+    (hnr : NoReturn tab c H) (a he : Entry) (L L' : Int) (hc : Covers tab c H a L) (hl : L' ≤ L)
+    (heH : he ∈ H) (hk : sameKey he a = true) (hv : a.ver ≤ he.ver) (hf : storedAs tab c he.k = some a.k) :
+    Covers tab c H a L' ∧ Covers tab c H a he.ver ∧
+    ∀ h' ∈ H, sameKey h' a = true → a.ver ≤ h'.ver → h'.ver ≤ he.ver → storedAs tab c h'.k = some a.k :=
+  ⟨covers_shrink tab c H a L L' hc hl, covers_restart_then_skip tab c H hnr a he L L' hc hl heH hk hv hf,
+   (covers_restart_then_skip tab c H hnr a he L L' hc hl heH hk hv hf).2⟩
+
+/-- non-vacuity: the history X@1 (form 10), X@3 (form 10) satisfies `NoReturn`; the finding's history X@1, X@2 (form 11),
+    X@3 does not — and there the conclusion fails: the stale entry (1, 10) does not cover X@2 -/
+example : NoReturn tabK true [mkEntry tabK 1 0, mkEntry tabK 3 2] := by unfold NoReturn; decide
+example : ¬ NoReturn tabK true [mkEntry tabK 1 0, mkEntry tabK 2 1, mkEntry tabK 3 2] := by unfold NoReturn; decide
+example : Covers tabK true [mkEntry tabK 1 0, mkEntry tabK 3 2] (mkEntry tabK 1 10) 1 := by unfold Covers; decide
+example : storedAs tabK true (mkEntry tabK 2 1).k ≠ some (mkEntry tabK 1 10).k := by decide
+
 end SH.C20
